@@ -36,6 +36,7 @@ namespace verif
         std::size_t gap;     // guard bytes in front of base
         std::size_t tail;    // guard bytes behind base+size
         bool        guarded; // guard zones are still exclusively ours
+        bool        poisoned = false; // returned to the upstream and filled with dead_byte
     };
 
     struct World
@@ -207,6 +208,7 @@ namespace verif
                 b.live = false;
                 ++w.up_frees;
                 std::memset(b.base, World::dead_byte, b.size);
+                b.poisoned = true;
             }
             else
             {
